@@ -486,6 +486,7 @@ type FnContract struct {
 	Asserts     []CallAssert // reserved
 	Covers      []Clause
 	Captures    []Capture
+	NoReturn    map[string]bool      // function values whose calls are assumed never to return
 	Callbacks   map[string][]ModItem // assumed frame of calls through a function-typed parameter (trusted): name -> modifies items over callarg0..n
 	Instances   []Clause             // bounded stand-ins: extra entry assumptions fixing some parameters (label = instance name)
 	Props       []string             // property ids this contract serves (informational)
@@ -702,8 +703,16 @@ func (cs *Contracts) parseContractFile(path string, pkg string) error {
 			cur.Modifies = append(cur.Modifies, items...)
 		case "callback":
 			// callback <name> modifies <items over callarg0..n>
+			if len(fs) == 3 && fs[2] == "noreturn" {
+				// calls through this function value never return normally (trusted), e.g. a configured panic handler
+				if cur.NoReturn == nil {
+					cur.NoReturn = map[string]bool{}
+				}
+				cur.NoReturn[fs[1]] = true
+				continue
+			}
 			if len(fs) < 4 || fs[2] != "modifies" {
-				return fail(fmt.Errorf("bad callback clause (callback <name> modifies <items>)"))
+				return fail(fmt.Errorf("bad callback clause (callback <name> modifies <items> | callback <name> noreturn)"))
 			}
 			k := strings.Index(rest, "modifies")
 			items, _, err := parseModifies(strings.TrimSpace(rest[k+len("modifies"):]))
